@@ -33,7 +33,7 @@ def program_pool(ctx, tier):
                                  'rnd': [pg.fb(x) for x in c['rnd']] + [pg.fb(0.25)] * 5,
                                  'timer': [pg.fb(x) for x in c['timer']] + [pg.fb(1.5)] * 5,
                                  'inkey': c['inkey']}})
-    npool = 80 if tier == 'quick' else 240
+    npool = 80 if tier == 'quick' else 160
     ks = list(range(npool))
     if tier == 'quick':
         ks = sorted(ctx.rng.sample(range(80), 30))
@@ -179,7 +179,7 @@ def main(tier, seed):
     progs = program_pool(ctx, tier)
     cases = [{'src': p['src'], 'script': p['script'], 'levels': [0, 1, 2], 'max_ticks': 20000}
              for p in progs]
-    raws = vlib.run_impl('peepfn.dbg_case', cases)
+    raws = vlib.run_impl('peepfn.dbg_case', cases, timeout=3300)
     ctx.rule.append(f'{len(progs)} programs (repository corpus{" (every 4th)" if tier == "quick" else ""}, '
                     f'{sum(1 for p in progs if p["kind"] == "gen")} generated from a fixed pool biased to empty '
                     'IF/ELSE/ELSEIF/CASE bodies, single-line IF with ELSE, nested SELECT, several statements per line, '
